@@ -146,6 +146,9 @@ type Tx struct {
 
 var amountStrings = []string{"0", "1", "0.000000000000000001", "0.5", "1.0000000000000000019", "7", "100", "-1", "1000000000000000000000000000000000000000000000000000000000000", "", "abc", "1e3", "0x10"}
 
+// ExtraTargets: further transfer targets (deployed contracts), set by the caller for the current case.
+var ExtraTargets []string
+
 // GenTransfer draws an asset transfer with 1..6 targets, including self targets and the same
 // address in different letter case.
 func GenTransfer(t *rapid.T, srcIdx int, nonce uint64, salt string, known bool) Tx {
@@ -164,6 +167,13 @@ func GenTransfer(t *rapid.T, srcIdx int, nonce uint64, salt string, known bool) 
 			addr = "0x" + addr[2:]
 		case 2:
 			addr = fmt.Sprintf("0x%040x", 0xbeef00+rapid.IntRange(0, 3).Draw(t, "freshIdx"))
+		case 3:
+			// a deployed contract (paid without running its code; it may have self-destructed earlier in the block)
+			if len(ExtraTargets) > 0 {
+				addr = rapid.SampledFrom(ExtraTargets).Draw(t, "contractTarget")
+			} else {
+				addr = Addr(rapid.IntRange(0, NKeys-1).Draw(t, "targetIdx"))
+			}
 		default:
 			addr = Addr(rapid.IntRange(0, NKeys-1).Draw(t, "targetIdx"))
 		}
